@@ -25,6 +25,7 @@ type runRec struct {
 	Kind    string   `json:"kind"`
 	K2      int      `json:"k2,omitempty"`
 	At      string   `json:"at"` // the faulted call
+	At2     string   `json:"at2,omitempty"` // the second faulted call (double faults)
 	N       int      `json:"n"`  // calls in this run
 	Outcome string   `json:"outcome"`
 	Err     string   `json:"err,omitempty"`
@@ -66,12 +67,15 @@ func judgeC01(sc *catalog.Scenario, base *fsx.Result, r *fsx.Result, rec *runRec
 	}
 	// the entry whose removal was made to fail necessarily remains; it is not held against the operation
 	diff := rec.Diff
-	if f := strings.Fields(rec.At); len(f) == 2 && (f[0] == "remove" || f[0] == "removeall") && rec.Kind == "error" {
-		diff = nil
-		for _, d := range rec.Diff {
-			if d != "+"+f[1] {
-				diff = append(diff, d)
+	for _, at := range []string{rec.At, rec.At2} {
+		if f := strings.Fields(at); len(f) == 2 && (f[0] == "remove" || f[0] == "removeall") && rec.Kind == "error" {
+			kept := []string{}
+			for _, d := range diff {
+				if d != "+"+f[1] {
+					kept = append(kept, d)
+				}
 			}
+			diff = kept
 		}
 	}
 	if len(diff) == 0 {
@@ -102,6 +106,9 @@ func judgeC01(sc *catalog.Scenario, base *fsx.Result, r *fsx.Result, rec *runRec
 	}
 	rec.Verdict = "violation"
 	rec.Key = fmt.Sprintf("%s|%s|%s|%s", sc.Op.Name, sc.Cfg, rec.Kind, callClass(rec.At))
+	if rec.At2 != "" {
+		rec.Key += "+" + callClass(rec.At2)
+	}
 	rec.Why = "operation failed (" + r.Outcome() + ") but the directory changed: " + strings.Join(rec.Diff, " ")
 }
 
@@ -139,7 +146,7 @@ func c01(w, tw *h.W, tier string, seed int64, only string) {
 	}
 	full["api.MergeCreateFile"] = true
 	full["api.OptimizeFile"] = true
-	runs, viol := 0, 0
+	runs, viol, doubles := 0, 0, 0
 	skipped := []string{}
 	for i := range ops {
 		op := &ops[i]
@@ -222,11 +229,45 @@ func c01(w, tw *h.W, tier string, seed int64, only string) {
 						viol++
 					}
 					sc.Close()
+					// double faults (Staged.tla explores them in the design; here on the real code): a second failing call among
+					// the calls the operation makes after the first fault - its error handling and clean-up. Single-output
+					// operations; every position in the thorough tier, the fully enumerated operations in the quick tier.
+					if kind == "error" && !op.Multi && r.Outcome() != "ok" && (tier == "thorough" || full[op.Name]) {
+						for k2 := k + 1; k2 <= len(r.Events); k2++ {
+							if tier != "thorough" && rng.Intn(3) != 0 {
+								continue
+							}
+							sc2 := catalog.NewScenario(op, cfg)
+							r2 := sc2.Run(fsx.RunCfg{FaultAt: k, Kind: "error", FaultAt2: k2, Kind2: "error"})
+							if k2 > len(r2.Events) || r2.Events[k2-1].Op != r.Events[k2-1].Op || r2.Events[k-1].Op != r.Events[k-1].Op {
+								sc2.Close() // not the same call sequence as the single-fault run: output is not byte-deterministic
+								continue
+							}
+							tid++
+							rec2 := runRec{T: tid, Op: op.Name, Cfg: cfg, K: k, K2: k2, Kind: "error", N: len(r2.Events), Outcome: r2.Outcome(), Err: errStr(&r2),
+								At: r2.Events[k-1].Op + " " + r2.Events[k-1].A, At2: r2.Events[k2-1].Op + " " + r2.Events[k2-1].A}
+							judgeC01(sc2, &base, &r2, &rec2)
+							excuse := []string{}
+							if f := strings.Fields(rec2.At2); len(f) == 2 && (f[0] == "remove" || f[0] == "removeall") {
+								excuse = append(excuse, f[1])
+							}
+							for _, l := range r2.Lines(fsx.Meta{T: tid, Name: op.Name + "/" + cfg, Prot: sc2.Prot, Outs: sc2.Outs, DestDirs: sc2.DestDirs, Judge: []string{"c01"}, Excuse: excuse}) {
+								tw.Put(l)
+							}
+							w.Put(rec2)
+							runs++
+							doubles++
+							if rec2.Verdict == "violation" {
+								viol++
+							}
+							sc2.Close()
+						}
+					}
 				}
 			}
 		}
 	}
-	h.Summary(map[string]any{"runs": runs, "violations": viol, "ops": len(ops), "skipped": skipped})
+	h.Summary(map[string]any{"runs": runs, "violations": viol, "ops": len(ops), "skipped": skipped, "double_fault_runs": doubles})
 }
 
 // ---------------------------------------------------------------------------------------------- C02
